@@ -2942,12 +2942,15 @@ bool BW_MidiSequencer::parseMUS(FileAndMemReader &fr)
     size_t mus_len = fr.fileSize();
 
     fr.seek(0, FileAndMemReader::SET);
-    uint8_t *mus = (uint8_t *)malloc(mus_len);
+    // The converter reads the operands of the last event and the delay bytes
+    // without looking at the end: give it a zeroed tail to run into
+    uint8_t *mus = (uint8_t *)malloc(mus_len + 20);
     if(!mus)
     {
         m_errorString = "Out of memory!";
         return false;
     }
+    std::memset(mus, 0, mus_len + 20);
     fsize = fr.read(mus, 1, mus_len);
     if(fsize < mus_len)
     {
